@@ -4,6 +4,14 @@ The model side is the driver op `load_full` (Lean `C04.loadFull`): numeric spike
 even over exact rationals), concrete defaults, channel positions (linear layout when not distinct), extra per-spike
 attributes, raw traces (C01/C02 reader models, rows from the file sizes) and duration all come from the model; the
 judge only decodes tokens and compares.
+
+Two classes of directories beyond fresh regular files with invented names (seeded C04 A9 / B9): per-spike attribute
+files whose names are NEAR the loader's reserved names (`spike_times_sec.npy`, `spike_time.npy`, ...; the Lean model
+`loadSpikeAttributes` decides by exact membership), and STORAGE FORMS in which files of the directory are symbolic
+links (`case['links']`: into a content-addressed store, `params.py` shared with another complete dataset, the
+directory reached through a directory link).  The Lean `Dir` is name -> contents, so the model's prediction does not
+depend on the storage form; the impl side additionally hashes the directories the links point into (`outside`):
+loading may neither create nor modify anything there.
 """
 import hashlib
 from fractions import Fraction
@@ -26,7 +34,14 @@ RULE = ('generated directories covering every single-factor variation and random
         'indexed by slices / lists / integers; template_scaling with template accesses followed by a re-inspection; '
         'feature tables stored for a subset of the spikes (pc_feature_spike_ids), template features with and without '
         'their column / row tables, NaN/inf cells in memory-mapped tables; datasets without templates; sparse '
-        'templates with one local channel. '
+        'templates with one local channel; per-spike attribute files whose names are NEAR a reserved name (extend it: '
+        'spike_times_sec, spike_amplitudes_uv; are a proper prefix of it: spike_time; end with it: spike_raw_times; differ '
+        'in case) next to files that carry a reserved name itself (spike_times_reordered, spike_samples, '
+        'spike_amplitudes: never attributes); STORAGE FORMS of the directory: params.py / raw files / arrays that are '
+        'symbolic links into a content-addressed store (git-annex style, relative or absolute targets), params.py '
+        'that is a link to the params.py of ANOTHER complete dataset (two sortings sharing their parameters), the '
+        'directory reached through a directory link - the loaded model is that of the directory named in the call and '
+        'nothing is created or modified in the directories the links point into. '
         'Every stored dimension >= 2 (size-1 dimensions are squeezed away by the loader: out of scope). '
         'non-trivial = every case')
 ASSUMPTIONS = ['np.linalg.inv is opaque (whitening matrices are diagonal powers of two; wm . wmi = I is checked numerically)',
@@ -145,6 +160,56 @@ def _use(m):
 
 
 
+RESERVED_ATTRS = ('clusters', 'templates', 'samples', 'times', 'times_reordered', 'amplitudes')
+
+
+def _sibling_files(files):
+    """ANOTHER well-formed dataset of the same shapes (for a params.py shared between two sortings): spike templates
+    reversed, integer spike samples shifted by one, no amplitudes, no curated clusters"""
+    out = {}
+    for name, f in files.items():
+        if name.startswith(('amplitudes', 'spikes.amps', 'spike_clusters', 'spikes.clusters')):
+            continue
+        f = dict(f)
+        if name.startswith(('spike_templates', 'spikes.templates')):
+            f['data'] = list(reversed(f['data']))
+        elif name.startswith(('spike_times.npy', 'spikes.samples')) and 'int' in f['dtype']:
+            f['data'] = [x + 1 for x in f['data']]
+        out[name] = f
+    return out
+
+
+def _store_links(d, links, files, case):
+    """Turn files of the directory `d` into symbolic links (case['links']).  -> the directories the links point into"""
+    import os
+    outside = []
+    if links.get('store'):
+        # content-addressed store next to the dataset (git-annex / datalad style): blobs named after their checksum,
+        # without extension
+        store = d.parent / (d.name + '_store')
+        store.mkdir(exist_ok=True)
+        outside.append(store)
+        for name in links['store']:
+            p = d / name
+            if not p.is_file() or p.is_symlink() or (name == 'params.py' and links.get('shared_params')):
+                continue
+            blob = store / ('SHA256E-s%d--%s' % (p.stat().st_size, hashlib.sha256(p.read_bytes()).hexdigest()))
+            os.replace(p, blob)
+            os.symlink(blob if links.get('absolute') else Path('..') / store.name / blob.name, p)
+    if links.get('shared_params'):
+        # a second, different, complete dataset whose params.py the judged directory shares through a link
+        sib = d.parent / (d.name + '_sib')
+        sib.mkdir(exist_ok=True)
+        outside.append(sib)
+        for name, f in _sibling_files(files).items():
+            np.save(sib / name, _arr(f))
+        for i, b in enumerate(_raw_bytes(case)):
+            (sib / ('raw%d.dat' % i)).write_bytes(b[:case['offset']] + b[case['offset']:][::-1])
+        os.replace(d / 'params.py', sib / 'params.py')
+        os.symlink(Path('..') / sib.name / 'params.py', d / 'params.py')
+    return outside
+
+
 def _load_dir(d, files, case, again=True, write=True):
     from phylib.io.model import load_model
     d.mkdir(exist_ok=True)
@@ -191,8 +256,21 @@ def _load_dir(d, files, case, again=True, write=True):
             m0.close()
         except Exception:  # noqa
             pass
+    links = case.get('links') or {}
+    outside = []
+    if write and links:
+        outside = _store_links(d, links, files, case)
+    elif links:
+        outside = [q for q in (d.parent / (d.name + '_store'), d.parent / (d.name + '_sib')) if q.is_dir()]
+    entry = d
+    if links.get('via_dir_link'):
+        # the dataset directory reached through a directory link
+        entry = d.parent / (d.name + '_link')
+        if not entry.is_symlink():
+            entry.symlink_to(d.name, target_is_directory=True)
     before = _hash(d)
-    m = load_model(d / 'params.py')
+    before_out = [_hash(q) for q in outside]
+    m = load_model(entry / 'params.py')
     try:
         out = _collect(m, case)
         if case.get('use_then_reinspect') and again:
@@ -206,6 +284,9 @@ def _load_dir(d, files, case, again=True, write=True):
     after = _hash(d)
     out['changed'] = sorted(k for k in before if before[k] != after.get(k))
     out['created'] = sorted(k for k in after if k not in before)
+    # the directories the links of the dataset point into: nothing created, nothing modified there
+    out['outside'] = sorted('%s/%s' % (q.name[len(d.name):], k) for q, b in zip(outside, before_out)
+                            for k, h in _hash(q).items() if b.get(k) != h)
     # contents of the created files: the cluster copy is the template file, the created inverse is an
     # inverse of the whitening matrix the model shows
     if 'whitening_mat_inv.npy' in out['created']:
@@ -217,7 +298,7 @@ def _load_dir(d, files, case, again=True, write=True):
     # a second model opened on the directory the first one left behind shows the same dataset
     out2 = _load_dir(d, {}, case, again=False, write=False)
     out['reopen_diff'] = sorted(k for k in LAYOUT_KEYS if out.get(k) != out2.get(k)) + \
-        (['files'] if out2['changed'] or out2['created'] else [])
+        (['files'] if out2['changed'] or out2['created'] or out2['outside'] else [])
     return out
 
 
@@ -317,6 +398,8 @@ def judge(case, impl_res, ans):
     # frame
     if ok['changed']:
         return 'SPEC: loading modified pre-existing files: %s' % ok['changed']
+    if ok.get('outside'):
+        return 'SPEC: loading created / modified files OUTSIDE the dataset directory (where its links point): %s' % ok['outside']
     exp_created = [f for f in m['files_after'] if f not in case['files']]
     if sorted(ok['created']) != sorted(exp_created):
         return 'SPEC: loading created %s, expected exactly %s' % (ok['created'], sorted(exp_created))
@@ -426,6 +509,31 @@ def shrink(case):
 
 def F(dtype, shape, data):
     return dict(dtype=dtype, shape=list(shape), data=list(data))
+
+
+def _near_reserved_name(rng):
+    r = rng.pick(RESERVED_ATTRS)
+    form = rng.randrange(4)
+    if form == 0:
+        n = r + rng.pick(['_sec', '_uv', '_adj', '_ks', '_orig', '_0', '2', 's', '.bak'])       # extends a reserved name
+    elif form == 1:
+        n = r[:rng.randrange(3, len(r))]                                                      # proper prefix of one
+    elif form == 2:
+        n = rng.pick(['raw_', 'ks_', 'old', 'n']) + r                                         # ends with one
+    else:
+        n = rng.pick([r.capitalize(), r.upper()])                                             # differs in case
+    return n if n not in RESERVED_ATTRS else n + '_x'
+
+
+def _attr_name_class(n):
+    """tally only"""
+    if any(n.startswith(r) for r in RESERVED_ATTRS):
+        return 'extra_attr_name_extends_reserved_name'
+    if any(r.startswith(n) for r in RESERVED_ATTRS):
+        return 'extra_attr_name_prefix_of_reserved_name'
+    if any(n.endswith(r) for r in RESERVED_ATTRS):
+        return 'extra_attr_name_ends_with_reserved_name'
+    return 'extra_attr_name_reserved_name_in_other_case'
 
 
 def make_case(rng, i):
@@ -610,6 +718,19 @@ def make_case(rng, i):
         tags.append('extra_attr_2d')
     if rng.random() < .2:
         files['spike_wrong.npy'] = F('float64', [ns + 1], [0.] * (ns + 1)); tags.append('extra_attr_wrong_length')
+    if rng.random() < .3:
+        # attribute names NEAR a reserved name: they are attributes like any other (only the exact reserved names are
+        # the loader's own files)
+        for _ in range(rng.randrange(1, 4)):
+            n_ = _near_reserved_name(rng)
+            k_ = ns if rng.random() < .85 else ns + 1
+            files['spike_%s.npy' % n_] = F(rng.pick(['float64', 'float32', 'int64']), v(k_), [float(rng.randrange(50)) for _ in range(k_)])
+            tags.append(_attr_name_class(n_))
+    if rng.random() < .15 and not alf:
+        # files that carry a reserved name itself and the length of an attribute: never shown as attributes
+        for n_ in rng.sample(['times_reordered', 'samples', 'amplitudes'], rng.randrange(1, 3)):
+            files['spike_%s.npy' % n_] = F('float64', v(ns), [float(rng.randrange(50)) for _ in range(ns)])
+        tags.append('reserved_name_files_present')
     if i % 23 == 11 and not sparse:
         # sparse templates with ONE local channel: the stored (nt, nsw, 1) / (nt, 1) arrays lose their last dimension
         # when read and get it back (np.atleast_3d; `cols = np.atleast_2d(cols).T`, model.py:703, 721-722)
@@ -704,6 +825,26 @@ def make_case(rng, i):
         files['spike_times.npy'] = F(tdt, v(ns), bad)
         case['expect_reject'] = True
         tags.append('non_monotonic')
+    if rng.random() < .3:
+        # storage form of the directory: some of its files are symbolic links
+        links = {}
+        form = rng.randrange(4)
+        names = sorted(files) + ['raw%d.dat' % k_ for k_ in range(len(case.get('raw') or []))] + sorted(case.get('text') or {})
+        if form in (0, 1):
+            links['store'] = sorted(rng.sample(names, rng.randrange(0, len(names) + 1))) + (['params.py'] if form == 0 or rng.random() < .5 else [])
+            links['absolute'] = rng.random() < .5
+            tags.append('links_into_a_store')
+            if 'params.py' in links['store']:
+                tags.append('params.py_is_a_link_into_a_store')
+        elif form == 2:
+            links['shared_params'] = True
+            if rng.random() < .3:
+                links['store'] = sorted(rng.sample(names, rng.randrange(1, len(names) + 1)))
+            tags.append('params.py_is_a_link_to_the_params_of_another_dataset')
+        if form == 3 or rng.random() < .2:
+            links['via_dir_link'] = True
+            tags.append('directory_reached_through_a_link')
+        case['links'] = links
     return case
 
 
